@@ -129,6 +129,7 @@ class LogicBlock(SystemWideDevice, ModeDevice):
     def device_removed_from_mode(self, mode: Mode):
         """Unset internal state to prevent leakage."""
         super().device_removed_from_mode(mode)
+        self.delay.clear()
         self._state = None
 
     @property
@@ -382,6 +383,11 @@ class Counter(LogicBlock):
                 raise AssertionError("Invalid control_event action {} in mode".
                                      format(entry['action']), self.name)
             self.machine.events.add_handler(entry['event'], handler, **kwargs)
+
+    def device_removed_from_mode(self, mode: Mode):
+        """Stop ignoring hits as the hit window delay has been removed."""
+        super().device_removed_from_mode(mode)
+        self.ignore_hits = False
 
     def check_complete(self, count_complete_value=None):
         """Check if counter is completed.
